@@ -751,6 +751,13 @@ func streamCrash(g *G) { // C05
 		g.emit("handle 900002 %s %d %%- %s", encB("/l/{id}/"+strings.Repeat("b", n-1)), n, encL([]string{"GET"}))
 	}
 	g.serveLine("serve", 900002, "GET", "/l/5/"+strings.Repeat("b", 32766), "", nil)
+	// the length limit of one piece, for purely static patterns and for pieces behind a parameter: CheckSyntax and Handle on a
+	// fresh router agree on both sides of the limit
+	for k, pat := range []string{"/" + strings.Repeat("s", 32766), "/" + strings.Repeat("s", 32767), strings.Repeat("s", 65534), "/{id}/" + strings.Repeat("t", 32766), "/{id}/" + strings.Repeat("t", 32767)} {
+		g.emit("syntax %s", encB(pat))
+		g.routerLine(900010+k, routerOpt{name: "lim"})
+		g.emit("handle %d %s 1 %%- %s", 900010+k, encB(pat), encL([]string{"GET"}))
+	}
 	rid := 1
 	for !g.full() {
 		g.history(rid, histCfg{useIc: g.chance(0.5), trace: g.chance(0.3), probes: 4, siblings: g.chance(0.5), invalid: 0.3, oddRequest: 0.5}, 6+g.intn(12))
@@ -2003,6 +2010,9 @@ func streamTrace(g *G) { // C18
 			dump := "%!"
 			if d, err := httputil.DumpRequest(req, withBody); err == nil {
 				dump = encB(string(d))
+			}
+			if g.chance(0.3) { // the same request first against a writer that fails, then normally
+				g.emit("trace-fail %s TRACE %s %s %s %s", b2s(withBody), encB(path), encKVs(append([]kv{{"Authorization", "Bearer first"}}, hdrs...)), encB("secret "+body), dump)
 			}
 			g.emit("trace-helper %s TRACE %s %s %s %s", b2s(withBody), encB(path), encKVs(hdrs), encB(body), dump)
 		}
